@@ -249,6 +249,14 @@ def execute(spec, ctx):
         rep_pat = {"elements": [a.el for a in Rm.atoms], "positions": [list(a.pos) for a in Rm.atoms]}
         smap = {} if step["replace_all"] else replcheck.shared_map(spec["pattern"], rep_pat)
         sp = dict(spec, fraction=step["fraction"], replace_all=step["replace_all"], replace=rep_pat)
+        if k > 0:
+            load = replcheck.first_round_candidates(structure, spec["pattern"], spec["atol"])
+            ctx.event("load", k, len(structure), load)
+            if load > 1500:
+                # an earlier replacement packed so many atoms of the pattern's elements into the (small) cell that one more search
+                # would take minutes: the history ends here (nothing is judged about a step that is not taken)
+                ctx.count("history_stopped_structure_too_dense")
+                break
         snaps = [replcheck.snapshot(x) for x in (structure, search, replace)]
         run = replcheck.run_replace(ctx, structure, search, replace, sp, step["script"])
         for snap, obj, what in zip(snaps, (structure, search, replace), ("structure", "search_pattern", "replace_pattern")):
